@@ -77,6 +77,10 @@ def gen_policy_cases(rng, n, prefix="p"):
                 ops += [["has", k], ["cost", k]]
             elif r < 0.93:
                 ops.append(["updmax", max_cost + rng.randrange(0, 40)])
+            elif big and r < 0.96:
+                # the sketch ages (halved counters, cleared doorkeeper): later admissions are judged by the aged estimates
+                ops.append(["age"])
+                ops += [["estcheck", k2] for k2 in keys]
             else:
                 ops.append(["metrics"])
         ops += [["cap"], ["costs"], ["metrics"]]
@@ -95,6 +99,9 @@ def annotate_policy(case, impl_lines):
             fs = impl_lines[n].split()
             if len(fs) == 2 and fs[0] in ("true", "false"):
                 op = op + " " + fs[0] + " " + fs[1]
+        if op == "age" and n < len(impl_lines):
+            fs = impl_lines[n].split()
+            op = "age " + (fs[1] if len(fs) == 2 and fs[0] == "ok" else "-")
         ops.append(op)
     return Case(case.id, case.comp, case.args, ops, case.tags)
 
@@ -116,6 +123,14 @@ class PolRef:
                 continue
             if fs[0] == "estcheck":
                 est[int(fs[1])] = int(out[0])
+                if len(out) > 1 and out[1].startswith("ref="):
+                    self.fails.append("op %d: Estimate(%s) = %s but count-min + doorkeeper bit = %s" % (n, fs[1], out[0], out[1][4:]))
+                    est[int(fs[1])] = int(out[1][4:])
+            elif fs[0] == "age":
+                if len(out) > 1 and out[1] != "-":
+                    for kv in out[1].split(","):
+                        a, b = kv.split(":")
+                        est[int(a)] = int(b)
             elif fs[0] == "updmax":
                 max_cost = int(fs[1])
             elif fs[0] == "clear":
